@@ -70,7 +70,7 @@ def discharge(obls, timeout_ms=20000, jobs=None, fallback=True):
     jobs = jobs or min(16, os.cpu_count() or 4)
     work = []
     for i, ob in enumerate(obls):
-        work.append(("%d" % i, to_smt2(ob), timeout_ms, True))
+        work.append(("%d" % i, to_smt2(ob), min(timeout_ms, 3000) if ob.kind == "canary" else timeout_ms, ob.kind != "canary"))
     if not work:
         return []
     ctx = mp.get_context("fork")
@@ -78,7 +78,7 @@ def discharge(obls, timeout_ms=20000, jobs=None, fallback=True):
         results = pool.map(_work, work, chunksize=1)
     out = []
     for ob, job, r in zip(obls, work, results):
-        if r["verdict"] in ("unknown", "error") and fallback:
+        if r["verdict"] in ("unknown", "error") and fallback and ob.kind != "canary":
             v, nm = cli_fallback(job[1], timeout_ms / 1000.0)
             if v in ("sat", "unsat"):
                 r = dict(r, verdict=v, solver=nm)
